@@ -739,14 +739,14 @@ Definition sess_post (F base : bytes) (w : awriter) (k : asink) (evs : list wev)
 (* the frame F is in the buffer and o < |F| bytes of it are in the sink: whatever the sink and the caller do
    from here (short writes, Pending, errors, accept-0, dropping the write or the sync future), the session
    ends idle with exactly F appended *)
-Lemma session_inflight : forall fuel ovf calls m e w k base F o,
+Lemma session_inflight : forall fuel calls m e w k base F o,
   m <> MWrite WfStart ->
   aw_state w = WriteFrom o -> o < len F -> aw_buf w = F ->
   concat (k_out k) = base ++ firstn (N.to_nat o) F ->
   4 <= len F -> len F < two64 -> (length (k_sched k) < fuel)%nat ->
-  exists evs c' w' k', aw_session fuel ovf calls m e w k = (evs, c', w', k') /\ sess_post F base w k evs w' k'.
+  exists evs c' w' k', aw_session fuel calls m e w k = (evs, c', w', k') /\ sess_post F base w k evs w' k'.
 Proof.
-  induction fuel as [|f IH]; intros ovf calls m e w k base F o Hm Hst Ho Hb Hout H4 Hu Hfu; [lia|].
+  induction fuel as [|f IH]; intros calls m e w k base F o Hm Hst Ho Hb Hout H4 Hu Hfu; [lia|].
   assert (Hsl : exists res w1 k1, sync_loop (S (asink_fuel k)) w k = (res, w1, k1) /\
             aw_buf w1 = aw_buf w /\ aw_max w1 = aw_max w /\ (length (k_sched k1) <= length (k_sched k))%nat /\
             match res with
@@ -772,8 +772,8 @@ Proof.
   assert (Kcont : forall c m2 o', m2 <> MWrite WfStart ->
             aw_state w1 = WriteFrom o' -> o' < len F -> concat (k_out k1) = base ++ firstn (N.to_nat o') F ->
             (length (k_sched k1) < length (k_sched k))%nat ->
-            exists evs c' w' k', aw_session f ovf c m2 e w1 k1 = (evs, c', w', k') /\ sess_post F base w1 k1 evs w' k').
-  { intros c m2 o' Hm2 Hs2 Ho2 Hout2 Hlt. apply (IH ovf c m2 e w1 k1 base F o'); try assumption. lia. }
+            exists evs c' w' k', aw_session f c m2 e w1 k1 = (evs, c', w', k') /\ sess_post F base w1 k1 evs w' k').
+  { intros c m2 o' Hm2 Hs2 Ho2 Hout2 Hlt. apply (IH c m2 e w1 k1 base F o'); try assumption. lia. }
   destruct m as [[|]|fu]; [contradiction Hm; reflexivity| |].
   - (* polling the write future *)
     cbn [aw_session aw_poll]. rewrite (Esp SAtWrite) by auto. unfold finish_write.
@@ -787,7 +787,7 @@ Proof.
       * cbn [filter is_wz]. destruct H as [[-> Hz]|[-> Hz]]; cbn [length]; lia.
     + destruct P as [o' [A [B [C [D [G H]]]]]].
       assert (K2 : forall c m2, m2 <> MWrite WfStart ->
-                exists evs c' w' k', aw_session f ovf c m2 e w1 k1 = (evs, c', w', k') /\ sess_post F base w k evs w' k').
+                exists evs c' w' k', aw_session f c m2 e w1 k1 = (evs, c', w', k') /\ sess_post F base w k evs w' k').
       { intros c m2 Hm2. destruct (Kcont c m2 o') as [evs [c' [w' [k' [E' [S1 [S2 [S3 [S4 [S5 [S6 S7]]]]]]]]]]]; try assumption.
         exists evs, c', w', k'. split; [exact E'|]. unfold sess_post. repeat split; try assumption; try lia; congruence. }
       destruct calls as [|[|] c]; apply K2; discriminate.
@@ -803,7 +803,7 @@ Proof.
       * cbn [filter is_wz]. destruct H as [[-> Hz]|[-> Hz]]; cbn [length]; lia.
     + destruct P as [o' [A [B [C [D [G H]]]]]].
       assert (K2 : forall c m2, m2 <> MWrite WfStart ->
-                exists evs c' w' k', aw_session f ovf c m2 e w1 k1 = (evs, c', w', k') /\ sess_post F base w k evs w' k').
+                exists evs c' w' k', aw_session f c m2 e w1 k1 = (evs, c', w', k') /\ sess_post F base w k evs w' k').
       { intros c m2 Hm2. destruct (Kcont c m2 o') as [evs [c' [w' [k' [E' [S1 [S2 [S3 [S4 [S5 [S6 S7]]]]]]]]]]]; try assumption.
         exists evs, c', w', k'. split; [exact E'|]. unfold sess_post. repeat split; try assumption; try lia; congruence. }
       destruct calls as [|[|] c]; apply K2; discriminate.
@@ -814,8 +814,13 @@ Qed.
 Definition frame_part (max : N) (e : enc_res) : bytes :=
   match e with EncOk p => if len p <=? max then frame_of p else [] | EncFail _ => [] end.
 
-Definition enc_fits (e : enc_res) : Prop :=
-  match e with EncOk p => len p + 4 < 4294967296 | EncFail _ => True end.
+(* the only thing asked of a value: if it is accepted its length fits the u32 prefix.  Always true when
+   max_len < 2^32, which AsyncWriter::set_max_len(u32) guarantees (enc_fits_u32 below). *)
+Definition enc_fits (max : N) (e : enc_res) : Prop :=
+  match e with EncOk p => len p <= max -> len p < 4294967296 | EncFail _ => True end.
+
+Lemma enc_fits_u32 max es : max < 4294967296 -> Forall (enc_fits max) es.
+Proof. intro H. apply Forall_forall. intros [p|part] _; cbn [enc_fits]; [lia|exact I]. Qed.
 
 Definition evs_ok (max : N) (e : enc_res) (evs : list wev) : Prop :=
   match e with
@@ -826,22 +831,22 @@ Definition evs_ok (max : N) (e : enc_res) (evs : list wev) : Prop :=
 
 (* C16_reject, in any writer state: an encoding failure or an over-long value returns the error from the
    first poll, makes no sink call and leaves the state enum as it was (the buffer is overwritten) *)
-Lemma aw_poll_reject ovf fuel e w k :
-  frame_part (aw_max w) e = [] -> enc_fits e ->
-  exists er b, aw_poll ovf fuel WfStart e w k = (WReady (WErr er), mkawriter b (aw_max w) (aw_state w), k) /\
+Lemma aw_poll_reject fuel e w k :
+  frame_part (aw_max w) e = [] ->
+  exists er b, aw_poll fuel WfStart e w k = (WReady (WErr er), mkawriter b (aw_max w) (aw_state w), k) /\
     er = match e with EncOk _ => IoInvalidLen | EncFail _ => IoEncode end.
 Proof.
-  intros Hp Hf. cbn [aw_poll]. destruct e as [p|part].
+  intros Hp. cbn [aw_poll]. destruct e as [p|part].
   - cbn [frame_part] in Hp. destruct (N.leb_spec (len p) (aw_max w)) as [Hle|Hgt].
     + exfalso. unfold frame_of in Hp. apply (f_equal (@length N)) in Hp. rewrite app_length, be_length in Hp. cbn in Hp. lia.
     + rewrite build_frame_too_long by exact Hgt. eexists _, _. split; reflexivity.
   - cbn [build_frame]. eexists _, _. split; reflexivity.
 Qed.
 
-Lemma aw_poll_start_accept ovf fuel p w k :
-  len p <= aw_max w -> len p + 4 < 4294967296 ->
-  aw_poll ovf fuel WfStart (EncOk p) w k
-    = aw_poll ovf fuel WfInSync (EncOk p) (mkawriter (frame_of p) (aw_max w) (WriteFrom 0)) k.
+Lemma aw_poll_start_accept fuel p w k :
+  len p <= aw_max w -> len p < 4294967296 ->
+  aw_poll fuel WfStart (EncOk p) w k
+    = aw_poll fuel WfInSync (EncOk p) (mkawriter (frame_of p) (aw_max w) (WriteFrom 0)) k.
 Proof.
   intros Hm Hs. cbn [aw_poll]. rewrite build_frame_ok by assumption.
   rewrite (sync_resume_eq fuel _ k 0); [reflexivity|reflexivity|].
@@ -857,14 +862,14 @@ Definition call_post (e : enc_res) (w : awriter) (k : asink) (evs : list wev) (w
   (length (filter is_wz evs) + nzero (k_sched k') = nzero (k_sched k))%nat.
 
 (* one value under the caller protocol, starting from an idle writer *)
-Lemma aw_write_call_spec ovf calls e w k :
-  aw_state w = WNone -> enc_fits e ->
-  exists evs c' w' k', aw_write_call ovf calls e w k = (evs, c', w', k') /\ call_post e w k evs w' k'.
+Lemma aw_write_call_spec calls e w k :
+  aw_state w = WNone -> enc_fits (aw_max w) e ->
+  exists evs c' w' k', aw_write_call calls e w k = (evs, c', w', k') /\ call_post e w k evs w' k'.
 Proof.
   intros Hst Hf. unfold aw_write_call.
   destruct (frame_part (aw_max w) e) as [|x F'] eqn:Efp.
   - (* refused *)
-    destruct (aw_poll_reject ovf (asink_fuel k) e w k Efp Hf) as [er [b [Ep Eer]]].
+    destruct (aw_poll_reject (asink_fuel k) e w k Efp) as [er [b [Ep Eer]]].
     replace (2 * length (k_sched k) + 4)%nat with (S (S (2 * length (k_sched k) + 2))) by lia.
     cbn [aw_session]. rewrite Ep. cbn [aw_session]. rewrite Hst.
     rewrite sync_idle by reflexivity.
@@ -876,13 +881,13 @@ Proof.
     + subst er. destruct e; cbn; lia.
   - (* accepted: the frame is built in the buffer, the state is armed, then sync *)
     destruct e as [p|part]; [|discriminate]. cbn [frame_part enc_fits] in *.
-    destruct (N.leb_spec (len p) (aw_max w)) as [Hle|]; [|discriminate].
+    destruct (N.leb_spec (len p) (aw_max w)) as [Hle|]; [|discriminate]. specialize (Hf Hle).
     set (w1 := mkawriter (frame_of p) (aw_max w) (WriteFrom 0)).
-    assert (E1 : forall f, aw_session (S f) ovf calls (MWrite WfStart) (EncOk p) w k
-                      = aw_session (S f) ovf calls (MWrite WfInSync) (EncOk p) w1 k).
+    assert (E1 : forall f, aw_session (S f) calls (MWrite WfStart) (EncOk p) w k
+                      = aw_session (S f) calls (MWrite WfInSync) (EncOk p) w1 k).
     { intro f. cbn [aw_session]. rewrite aw_poll_start_accept by assumption. reflexivity. }
     replace (2 * length (k_sched k) + 4)%nat with (S (2 * length (k_sched k) + 3)) by lia. rewrite E1.
-    destruct (session_inflight (S (2 * length (k_sched k) + 3)) ovf calls (MWrite WfInSync) (EncOk p) w1 k
+    destruct (session_inflight (S (2 * length (k_sched k) + 3)) calls (MWrite WfInSync) (EncOk p) w1 k
                 (concat (k_out k)) (frame_of p) 0) as [evs [c' [w' [k' [E [S1 [S2 [S3 [S4 [S5 [S6 S7]]]]]]]]]]].
     + discriminate.
     + reflexivity.
@@ -898,23 +903,23 @@ Proof.
       intro Hnil. rewrite Efp in Hnil. discriminate.
 Qed.
 
-Lemma aw_run_spec : forall es ovf calls w k,
-  aw_state w = WNone -> Forall enc_fits es ->
+Lemma aw_run_spec : forall es calls w k,
+  aw_state w = WNone -> Forall (enc_fits (aw_max w)) es ->
   exists evss w' k',
-    aw_run ovf calls es w k = (evss, SyReady SOk, w', k') /\
+    aw_run calls es w k = (evss, SyReady SOk, w', k') /\
     aw_state w' = WNone /\ aw_max w' = aw_max w /\
     concat (k_out k') = concat (k_out k) ++ concat (map (frame_part (aw_max w)) es) /\
     Forall2 (evs_ok (aw_max w)) es evss /\
     (length (filter is_wz (concat evss)) + nzero (k_sched k') = nzero (k_sched k))%nat.
 Proof.
-  induction es as [|e es IH]; intros ovf calls w k Hst Hf.
+  induction es as [|e es IH]; intros calls w k Hst Hf.
   - cbn [aw_run]. rewrite sync_idle by exact Hst.
     eexists _, _, _. split; [reflexivity|]. cbn [map concat filter length]. rewrite app_nil_r.
     repeat split; try assumption; try lia. constructor.
   - inversion Hf as [|? ? Hfe Hfes]; subst. cbn [aw_run].
-    destruct (aw_write_call_spec ovf calls e w k Hst Hfe) as [evs [c1 [w1 [k1 [E1 [S1 [S2 [S3 [S4 [S5 [S6 S7]]]]]]]]]]].
-    rewrite E1.
-    destruct (IH ovf c1 w1 k1 S1 Hfes) as [evss [w' [k' [E2 [T1 [T2 [T3 [T4 T5]]]]]]]].
+    destruct (aw_write_call_spec calls e w k Hst Hfe) as [evs [c1 [w1 [k1 [E1 [S1 [S2 [S3 [S4 [S5 [S6 S7]]]]]]]]]]].
+    rewrite E1. rewrite <- S2 in Hfes.
+    destruct (IH c1 w1 k1 S1 Hfes) as [evss [w' [k' [E2 [T1 [T2 [T3 [T4 T5]]]]]]]].
     rewrite E2. eexists _, _, _. split; [reflexivity|]. rewrite S2 in *.
     split; [exact T1|]. split; [exact T2|]. split.
     + rewrite T3, S3. cbn [map concat]. now rewrite app_assoc.
@@ -922,26 +927,37 @@ Proof.
 Qed.
 
 (* C16_frames *)
-Theorem aio_write_frames ovf max es sched calls b0 c0 :
-  Forall enc_fits es ->
+Theorem aio_write_frames max es sched calls b0 c0 :
+  Forall (enc_fits max) es ->
   exists evss w' k',
-    aw_run ovf calls es (mkawriter b0 max WNone) (mkasink [] sched c0) = (evss, SyReady SOk, w', k') /\
+    aw_run calls es (mkawriter b0 max WNone) (mkasink [] sched c0) = (evss, SyReady SOk, w', k') /\
     aw_state w' = WNone /\
     concat (k_out k') = concat (map (frame_part max) es) /\
     Forall2 (evs_ok max) es evss /\
     (length (filter is_wz (concat evss)) + nzero (k_sched k') = nzero sched)%nat.
 Proof.
-  intro Hf. destruct (aw_run_spec es ovf calls (mkawriter b0 max WNone) (mkasink [] sched c0) eq_refl Hf)
+  intro Hf. destruct (aw_run_spec es calls (mkawriter b0 max WNone) (mkasink [] sched c0) eq_refl Hf)
     as [evss [w' [k' [E [A [B [C [D F]]]]]]]].
   exists evss, w', k'. cbn in *. auto.
 Qed.
+
+(* the same with the only assumption the real API needs: max_len is a u32 *)
+Corollary aio_write_frames_u32 max es sched calls b0 c0 :
+  max < 4294967296 ->
+  exists evss w' k',
+    aw_run calls es (mkawriter b0 max WNone) (mkasink [] sched c0) = (evss, SyReady SOk, w', k') /\
+    aw_state w' = WNone /\
+    concat (k_out k') = concat (map (frame_part max) es) /\
+    Forall2 (evs_ok max) es evss /\
+    (length (filter is_wz (concat evss)) + nzero (k_sched k') = nzero sched)%nat.
+Proof. intro H. apply aio_write_frames. apply enc_fits_u32. exact H. Qed.
 
 Example aio_write_ex :
   let es := [EncOk [65; 1]; EncFail [170]; EncOk [66; 1; 2; 3]; EncOk []] in
   let sched := [KAccept 2; KPend; KAccept 1; KAccept 0; KErr; KPend; KAccept 3] in
   let calls := [CPoll; CDrop; CDrop; CPoll] in
-  Forall enc_fits es /\
-  (let '(evss, fin, w, k) := aio_write_run true 3 es sched calls in
+  Forall (enc_fits 3) es /\
+  (let '(evss, fin, w, k) := aio_write_run 3 es sched calls in
    concat (k_out k) = frame_of [65; 1] ++ frame_of [] /\ aw_state w = WNone /\ fin = SyReady SOk /\
    evss = [[EvW (WErr IoWriteZero); EvS (SErr IoInner); EvS SOk]; [EvW (WErr IoEncode); EvS SOk];
            [EvW (WErr IoInvalidLen); EvS SOk]; [EvW (WOk 0)]]).
@@ -958,11 +974,47 @@ Qed.
 Example aw_unsynced_reject_garbage :
   let w0 := mkawriter [] 2 WNone in
   let k0 := mkasink [] [KAccept 2; KPend] 0 in
-  let '(_, w1, k1) := aw_poll true 9 WfStart (EncOk [65; 1]) w0 k0 in            (* Pending; future dropped *)
-  let '(r2, w2, k2) := aw_poll true 9 WfStart (EncOk [67; 7; 8; 9]) w1 k1 in     (* refused: InvalidLen *)
+  let '(_, w1, k1) := aw_poll 9 WfStart (EncOk [65; 1]) w0 k0 in            (* Pending; future dropped *)
+  let '(r2, w2, k2) := aw_poll 9 WfStart (EncOk [67; 7; 8; 9]) w1 k1 in     (* refused: InvalidLen *)
   let '(r3, w3, k3) := sync_poll 9 SStart w2 k2 in
   r2 = WReady (WErr IoInvalidLen) /\ aw_state w2 = WriteFrom 2 /\
   r3 = SyReady SOk /\ concat (k_out k3) = [0; 0] ++ [0; 2; 67; 7; 8; 9].
+Proof. vm_compute. repeat split; reflexivity. Qed.
+
+(* Inside the protocol of C16 every write call starts on an idle writer (call_post / sess_post end with
+   aw_state = WNone, and aw_run only issues the next write after the previous write or sync returned Ok).  A
+   refused value therefore meets state None: it leaves the state None, makes no sink call, and any later sync is
+   the idle sync — the situation of aw_unsynced_reject_garbage (refusal over an armed state) cannot arise. *)
+Lemma frame_part_nil_fits max e : frame_part max e = [] -> enc_fits max e.
+Proof.
+  destruct e as [p|part]; cbn [frame_part enc_fits]; [|auto].
+  destruct (N.leb_spec (len p) max) as [Hle|Hgt]; [|intros _ Hle; lia].
+  intro H. exfalso. unfold frame_of in H. apply (f_equal (@length N)) in H. rewrite app_length, be_length in H. cbn in H. lia.
+Qed.
+
+Theorem aio_reject_in_protocol calls e w k :
+  aw_state w = WNone -> frame_part (aw_max w) e = [] ->
+  exists evs c' w',
+    aw_write_call calls e w k = (evs, c', w', k) /\ aw_state w' = WNone /\
+    evs = [EvW (WErr (match e with EncOk _ => IoInvalidLen | EncFail _ => IoEncode end)); EvS SOk] /\
+    forall fuel, sync_poll fuel SStart w' k = (SyReady SOk, w', k).
+Proof.
+  intros Hst Hnil.
+  destruct (aw_write_call_spec calls e w k Hst (frame_part_nil_fits _ _ Hnil))
+    as [evs [c' [w' [k' [E [S1 [S2 [S3 [S4 [S5 _]]]]]]]]]].
+  rewrite (S5 Hnil) in E. exists evs, c', w'. split; [exact E|]. split; [exact S1|]. split.
+  - unfold evs_ok in S4. destruct e as [p|part]; [|exact S4]. cbn [frame_part] in Hnil.
+    destruct (len p <=? aw_max w); [|exact S4].
+    exfalso. unfold frame_of in Hnil. apply (f_equal (@length N)) in Hnil. rewrite app_length, be_length in Hnil. cbn in Hnil. lia.
+  - intro fuel. apply sync_idle. exact S1.
+Qed.
+
+(* the scenario of aw_unsynced_reject_garbage, but inside the protocol (the dropped write is followed by sync
+   before the next write): the sink holds the whole first frame and nothing of the refused value *)
+Example aw_synced_reject_clean :
+  let '(evss, fin, w, k) := aio_write_run 2 [EncOk [65; 1]; EncOk [67; 7; 8; 9]] [KAccept 2; KPend] [CDrop] in
+  evss = [[EvS SOk]; [EvW (WErr IoInvalidLen); EvS SOk]] /\ fin = SyReady SOk /\ aw_state w = WNone /\
+  concat (k_out k) = frame_of [65; 1].
 Proof. vm_compute. repeat split; reflexivity. Qed.
 
 (* C16 invariant at poll granularity: every poll of a sync future (fresh, or resumed in the state it was
